@@ -309,7 +309,8 @@ func (t *tfRun) obs() string {
 		cb = strings.Join(t.cbs, ";")
 	}
 	t.cbs = nil
-	return fmt.Sprintf("v=%s col=%s cb=%s", ids(t.tf.Value), col, cb)
+	cur, n := t.tf.VerifC17State()
+	return fmt.Sprintf("v=%s col=%s cb=%s cur=%d n=%d", ids(t.tf.Value), col, cb, cur, n)
 }
 
 func (t *tfRun) widths() string { return clusterWidths(t.tf.Value) }
